@@ -27,6 +27,11 @@ type parseModel struct {
 	abvObj   types.Object
 	valObj   types.Object
 	orderVar *types.Var
+	// R01.cmp verdict, reported after the automaton has run
+	cmpRan, cmpOK bool
+	cmpDetail     string
+	// the cursor automaton was decided and equals the specification's
+	autoOK bool
 }
 
 func (p *Pkg) blockOf(g *cfg.CFG, n ast.Node) *cfg.Block {
@@ -345,10 +350,36 @@ func (w *World) rulesParsePkg(p *Pkg, out *[]Obligation) {
 			if !cmpBlocks[sb] && !cmpBlocks[tb] {
 				path = findPathAvoid(sb, tb, cmpBlocks)
 			}
-			add(path == nil && len(cmpBlocks) > 0, "R01.cmp", "ParseVector.order", m.setCall, map[bool]string{true: fmt.Sprintf("Set is reachable from the split only through a comparison of the abbreviation with the order table (%d comparison blocks)", len(cmpBlocks)), false: "Set can be reached without comparing the element's abbreviation with the order table: metrics are accepted in any position"}[path == nil && len(cmpBlocks) > 0])
+			m.cmpOK = path == nil && len(cmpBlocks) > 0
+			m.cmpDetail = fmt.Sprintf("%d comparison blocks", len(cmpBlocks))
+			m.cmpRan = true
 		}
 	}
 
+	// ---- cursor automaton (v2, v4)
+	if ov.Order == "fixed" {
+		autoOK, autoSeen := true, false
+		w.rulesAutomaton(p, m, func(ok bool, rule, inst string, n ast.Node, detail string) {
+			if rule == "R01.automaton" {
+				autoSeen = true
+				autoOK = autoOK && ok
+			}
+			add(ok, rule, inst, n, detail)
+		})
+		// R01.cmp is a path argument over the CFG; a path without the
+		// comparison may be infeasible (a flag-controlled search loop). The
+		// exact cursor automaton settles such cases.
+		if m.cmpRan {
+			switch {
+			case m.cmpOK:
+				add(true, "R01.cmp", "ParseVector.order", m.setCall, "Set is reachable from the split only through a comparison of the abbreviation with the order table ("+m.cmpDetail+")")
+			case autoSeen && autoOK:
+				add(true, "R01.cmp", "ParseVector.order", m.setCall, "the control-flow graph has a path from the split to Set that avoids the comparison with the order table, but the exact cursor automaton (R01.automaton) shows that every accepted element was compared: the path is infeasible")
+			default:
+				add(false, "R01.cmp", "ParseVector.order", m.setCall, "Set can be reached without comparing the element's abbreviation with the order table: metrics are accepted in any position")
+			}
+		}
+	}
 	// ---- header guard
 	w.rulesHeader(p, m, add)
 	// ---- return census (R01.pair, R18.*)
@@ -363,16 +394,18 @@ func (w *World) rulesParsePkg(p *Pkg, out *[]Obligation) {
 	w.rulesDenyList(p, add)
 	// ---- sentinels
 	w.rulesSentinels(p, add)
-	// ---- cursor automaton (v2, v4)
-	if ov.Order == "fixed" {
-		w.rulesAutomaton(p, m, add)
-	}
 	// ---- v2 split
 	if k == "20" {
 		w.rulesSplit(p, m, add)
 	}
 	// ---- R13.v2 / cursors start at 0
-	if ov.Order == "fixed" {
+	if ov.Order == "fixed" && m.autoOK {
+		first := ""
+		if len(ov.Groups) > 0 && len(ov.Groups[0].Metrics) > 0 {
+			first = ov.Groups[0].Metrics[0].Abv
+		}
+		add(true, "R13.v2", "ParseVector.cursors", fd, "the cursor automaton (R01.automaton) equals the specification's from its initial state: the first element is accepted only if it is "+first)
+	} else if ov.Order == "fixed" {
 		okInit := true
 		n := 0
 		for _, s := range fd.Body.List {
